@@ -239,7 +239,26 @@ def r3(ctx, rep, prog):
             es = agg(b, 'parser::ParseError', e)
             key = f'{fn}:{e}'
             if not es:
-                rep.fail('R3', key, f"{fn} never constructs ParseError::{e}: {what} is no longer rejected", site)
+                # the rejection may sit in a private helper that decides the shape of the item (`struct_shape(s)?`): the same
+                # dominance is then required inside the helper — over its accepting `Ok(..)` — and the helper's Result must
+                # reach a `?` (or be returned) in the parser
+                helped = None
+                for c in b['calls']:
+                    for t in prog.targets_of_call(c):
+                        h = prog.bodies.get(t)
+                        if h is None or h['kind'] != 'fn' or h['file'] != b['file'] or h['id'].split('::')[-1] in [p_[0] for p_ in pairs] + ['parse_type_alias']:
+                            continue
+                        hes = agg(h, 'parser::ParseError', e)
+                        if not hes:
+                            continue
+                        hacc = agg(h, 'std::result::Result', 'Ok') or agg(h, 'core::result::Result', 'Ok')
+                        inside = any(h['idom'][ea['bb']] != -1 and prog.dominates(h, h['idom'][ea['bb']], aa['bb']) and aa['bb'] not in prog.reachable_blocks(h, ea['bb']) for ea in hes for aa in hacc)
+                        helped = (h, hes, inside and reaches_try(b, c['dest']) in ('try', 'returned'), bool(reaches_try(b, c['dest'])))
+                if helped is None:
+                    rep.fail('R3', key, f"{fn} never constructs ParseError::{e}: {what} is no longer rejected", site)
+                else:
+                    h, hes, ok, propagated = helped
+                    rep.check(ok, 'R3', key, f"test for ParseError::{e} dominates the accepting Ok(..) of helper {h['id'].split('::')[-1]}, whose Result reaches `?` in {fn}", f"{fn}: the helper {h['id']} yields ParseError::{e}, but {'its accepting result does not depend on that test' if propagated else 'its Result is not propagated with `?`'} ({what} would be mis-generated)", {'file': hes[0]['file'], 'line': hes[0]['line']})
                 continue
             ok = False
             for ea in es:
